@@ -418,15 +418,26 @@ class Interp:
         if not isinstance(v, VInt):
             self.raise_py("builtins.ValueError", "not a valid enum value")
         vals = self.enum_values(cls)
+
+        def missing():
+            # Enum._missing_: a class may map a non-member value to a member (or return None -> ValueError)
+            k, fn = cls.find_method("_missing_")
+            if fn is not None and not k.builtin:
+                r = self.resolve(self.call(self.class_attr(cls, "_missing_") if False else VFunc(fn, k.module, cls=k, qualname=f"{k.qualname}._missing_", kind="classmethod").bind(cls), [v], {}))
+                if isinstance(r, VInt) and r.enum is not None and r.enum.issub(cls):
+                    return r
+                if not isinstance(r, VNone):
+                    self.raise_py("builtins.TypeError", "error in _missing_: returned a non-member")
+            self.raise_py("builtins.ValueError", f"not a valid {cls.name}")
         if v.c is not None:
             if v.c in vals:
                 return VInt(c=v.c, enum=cls)
-            self.raise_py("builtins.ValueError", f"{v.c} is not a valid {cls.name}")
+            return missing()
         member = ops.VBool(t=z3.Or([ops.int_cmp("==", v, mkint(k)).term() for k in vals]))
         if member.c is True or (member.c is None and self.path.branch(member.t, f"enum:{cls.name}")):
             return VInt(b=v.b, i=v.i, lo=max(v.lo, min(vals)) if v.lo is not None else min(vals),
                         hi=min(v.hi, max(vals)) if v.hi is not None else max(vals), enum=cls)
-        self.raise_py("builtins.ValueError", f"not a valid {cls.name}")
+        return missing()
 
     # ------------------------------------------------------------------------------------------
     # names
@@ -2029,6 +2040,13 @@ class Interp:
             # xs = [e for t in it if c] over a list of symbolic length: executed as the loop it abbreviates, under that loop's contract
             tname = [n.id for n in ast.walk(loop.target) if isinstance(n, ast.Name)]
             saved = {n: fr.locals[n] for n in tname if n in fr.locals}
+            tgt = node.targets[0]
+            if isinstance(tgt, ast.Name) and isinstance(loop.iter, ast.Name) and tgt.id == loop.iter.id:
+                # xs = [.. for t in xs ..]: the iterable is the OLD value of the name that receives the new list
+                import copy as _copy
+                fr.locals["__pyvc_comp_src"] = self.ev(loop.iter, fr)
+                loop = _copy.copy(loop)
+                loop.iter = ast.copy_location(ast.Name(id="__pyvc_comp_src", ctx=ast.Load()), loop.iter)
             self.assign(node.targets[0], self.new_list([]), fr)
             self.st_For(loop, fr)
             for n in tname:             # the comprehension's own variable does not leak
